@@ -644,6 +644,10 @@ def r09_14(run, model):
                 if g.name not in rec and any(True for _ in S.calls(g.body, *rec)):
                     rec.add(g.name)
                     grew = True
+        # the walkers of a child enum the traversal calls (compile_imm for the immediates of an ANF node)
+        own_ret = ret.replace(" ", "")
+        ir_ret = {g.name for g in peers if (g.node.get("ret") or "").replace(" ", "") in (own_ret, f"Vec<{own_ret}>", f"Box<{own_ret}>")}
+        rec |= {S.callee_name(c) for c in S.walk(t.fn.body) if c["k"] in ("Call", "MethodCall") and S.callee_name(c) in ir_ret}
         variants = {v["name"]: v for v in t.enum["variants"]}
         for vname, lst in sorted(t.covered.items()):
             v = variants.get(vname)
